@@ -199,6 +199,10 @@ pub struct ConnObs {
     pub max_dgram: usize,
     pub first_tx_at: Option<u64>,
     pub drained_at: Option<u64>,
+    pub last_rx_at: Option<u64>,
+    /// last time a datagram made `total_authed_packets` grow (needs `model_trace`)
+    pub last_authed_rx_at: Option<u64>,
+    pub last_tx_at: Option<u64>,
 }
 
 pub struct NodeConn {
@@ -275,6 +279,19 @@ pub struct Sim {
 
 pub fn addr(port: u16) -> SocketAddr {
     SocketAddr::new(IpAddr::V6(Ipv6Addr::LOCALHOST), port)
+}
+
+/// lifecycle projection of a snapshot for the Lean `life` trace checker: "st err closeFlag closeTimer idleTimer"
+pub fn life_state(base: Instant, s: &Snapshot) -> String {
+    let st = match s.state {
+        "handshake" => 0,
+        "established" => 1,
+        "closed" => 2,
+        "draining" => 3,
+        _ => 4,
+    };
+    let t = |x: Option<Instant>| x.map_or("-".to_string(), |i| (i.saturating_duration_since(base).as_nanos() as u64).to_string());
+    format!("{st} {} {} {} {}", s.has_error as u8, s.close as u8, t(s.timers[2]), t(s.timers[1]))
 }
 
 fn ev_name(e: &Event) -> String {
@@ -567,8 +584,16 @@ impl Sim {
         };
         let extra = spurious > 0 && self.rng.below(1000) < spurious;
         if due || extra {
+            let before = if self.model_trace { Some(self.nodes[node].conns[&ch].conn.verif_snapshot()) } else { None };
             let nc = self.nodes[node].conns.get_mut(&ch).unwrap();
             nc.conn.handle_timeout(now);
+            if let Some(b) = before {
+                let a = nc.conn.verif_snapshot();
+                if self.model_ops.len() < 400_000 {
+                    self.model_ops.push(format!("life timeout {nowoff} {}", life_state(self.base, &b)));
+                    self.model_impl.push(life_state(self.base, &a));
+                }
+            }
             let next = nc.conn.poll_timeout().map(|t| t.saturating_duration_since(self.base).as_nanos() as u64);
             if due {
                 self.trace.push(Rec::Timeout { node, ch, at: nowoff, next });
@@ -578,12 +603,44 @@ impl Sim {
         loop {
             let ev = self.nodes[node].conns.get_mut(&ch).unwrap().events.pop_front();
             let Some((ev, len, from)) = ev else { break };
+            self.nodes[node].conns.get_mut(&ch).unwrap().obs.last_rx_at = Some(nowoff);
             let before = if self.model_trace { Some(self.nodes[node].conns[&ch].conn.verif_snapshot()) } else { None };
             self.nodes[node].conns.get_mut(&ch).unwrap().conn.handle_event(ev);
             if let Some(b) = before {
                 let a = self.nodes[node].conns[&ch].conn.verif_snapshot();
                 // datagrams from other addresses that did not migrate the path are dropped/ignored by the path model
                 let migrated = a.path.remote != b.path.remote;
+                if a.total_authed_packets > b.total_authed_packets {
+                    self.nodes[node].conns.get_mut(&ch).unwrap().obs.last_authed_rx_at = Some(nowoff);
+                }
+                // lifecycle transition caused by this datagram, classified from the observed outcome
+                let open = |s: &Snapshot| s.state == "handshake" || s.state == "established";
+                let toff = |x: Option<Instant>| x.map(|i| i.saturating_duration_since(self.base).as_nanos() as u64);
+                let pto3 = toff(a.timers[2]).map_or(0, |t| t.saturating_sub(nowoff));
+                let same = (from == a.path.remote) as u8;
+                let ev = if open(&b) && a.state == "draining" {
+                    // 1-RTT close owes a closing packet in reply; a close in an Initial/Handshake packet does not
+                    Some(format!("{} {nowoff} {pto3}", if a.close { "peerclose" } else { "peercloseearly" }))
+                } else if b.state != "drained" && a.state == "drained" {
+                    Some(format!("pkterr drained {nowoff} {pto3} {same}"))
+                } else if open(&b) && a.state == "closed" {
+                    Some(format!("pkterr closed {nowoff} {pto3} {same}"))
+                } else if b.state == "closed" && a.state == "draining" {
+                    Some("closeframe".to_string())
+                } else if b.state == "handshake" && a.state == "established" {
+                    None
+                } else if open(&b) && open(&a) && a.total_authed_packets > b.total_authed_packets && a.timers[1] != b.timers[1] {
+                    let idle = toff(a.timers[1]).map_or(0, |t| t.saturating_sub(nowoff));
+                    Some(format!("authed {nowoff} {idle}"))
+                } else {
+                    None
+                };
+                if let Some(ev) = ev {
+                    if self.model_ops.len() < 400_000 {
+                        self.model_ops.push(format!("life {ev} {}", life_state(self.base, &b)));
+                        self.model_impl.push(life_state(self.base, &a));
+                    }
+                }
                 if self.model_ops.len() < 400_000 {
                     // a datagram from an address other than the (resulting) path's is not credited to it
                     let op = if from == a.path.remote { "rx" } else { "foreign" };
@@ -681,6 +738,7 @@ impl Sim {
             obs.tx_datagrams += n as u64;
             obs.tx_bytes += t.size as u64;
             obs.first_tx_at.get_or_insert(nowoff);
+            obs.last_tx_at = Some(nowoff);
             obs.max_dgram = obs.max_dgram.max(seg.min(t.size));
         }
         if before.state == "drained" {
